@@ -148,25 +148,31 @@ func (e *env) sinkParent(x ast.Expr) string {
 		}
 		return fmt.Sprintf("(PValueSpec %s)", filt.CoqString(tyStr(t)))
 	case *ast.ReturnStmt:
-		res := "None"
+		// the go/ast path from the statement outwards; every function on it with the FIELDS of its result list as written
+		// (names per field, go/types' type of the field's type expression): the model picks the function and numbers the results
+		var path []string
 		for q := e.parents[ast.Node(v)]; q != nil; q = e.parents[q] {
-			var sig *types.Signature
+			var ft *ast.FuncType
+			lit := false
 			switch f := q.(type) {
 			case *ast.FuncDecl:
-				sig, _ = e.t.Info.TypeOf(f.Name).(*types.Signature)
+				ft = f.Type
 			case *ast.FuncLit:
-				sig, _ = e.t.Info.TypeOf(f.Type).(*types.Signature)
+				ft, lit = f.Type, true
 			}
-			if sig != nil {
-				var ts []types.Type
-				for i := 0; i < sig.Results().Len(); i++ {
-					ts = append(ts, sig.Results().At(i).Type())
+			if ft == nil {
+				path = append(path, "NOtherNode")
+				continue
+			}
+			var fields []string
+			if ft.Results != nil {
+				for _, fld := range ft.Results.List {
+					fields = append(fields, fmt.Sprintf("(%d%%nat, %s)", len(fld.Names), filt.CoqString(tyStr(e.t.Info.TypeOf(fld.Type)))))
 				}
-				res = "(Some " + coqTyList(ts) + ")"
-				break
 			}
+			path = append(path, fmt.Sprintf("NFunc %s [%s]", coqBool(lit), strings.Join(fields, "; ")))
 		}
-		return fmt.Sprintf("(PReturn %s %s)", optNat(indexOf(v.Results, x)), res)
+		return fmt.Sprintf("(return_parent %s [%s])", optNat(indexOf(v.Results, x)), strings.Join(path, "; "))
 	case *ast.IndexExpr:
 		if unparen(v.Index) != x {
 			return "POtherParent"
